@@ -1184,7 +1184,13 @@ static int rtr_sync_receive_and_store_pdus(struct rtr_socket *rtr_socket)
 					retval = RTR_ERROR;
 					goto cleanup;
 				}
-				spki_table_init(spki_shadow_table, NULL);
+				if (spki_table_init(spki_shadow_table, NULL) != SPKI_SUCCESS) {
+					RTR_DBG1("Initialisation of spki shadow table failed");
+					lrtr_free(spki_shadow_table);
+					spki_shadow_table = NULL;
+					retval = RTR_ERROR;
+					goto cleanup;
+				}
 				spki_update_table = spki_shadow_table;
 				if (spki_table_copy_except_socket(rtr_socket->spki_table, spki_update_table,
 								  rtr_socket) != SPKI_SUCCESS) {
